@@ -47,6 +47,7 @@ func Gen(t *rapid.T, p Profile) Spec {
 		s.Children = rapid.IntRange(0, p.MaxChildren).Draw(t, "children")
 		if s.Children > 0 {
 			s.RespawnKids = rapid.Bool().Draw(t, "respawn_kids")
+			s.KidSwap = rapid.Bool().Draw(t, "kid_swap")
 		}
 	}
 	if p.Lifecycle {
